@@ -1786,12 +1786,19 @@ class FileBuilder:
             if self._try_to_reuse_cached_file():
                 return operation.return_value
 
-            if (os.path.isfile(filename) and
-                    self._backups.back_up_and_remove(filename)):
-                logger.info(
-                    'Moved {:s} to a temporary directory, in preparation for '
-                    'rebuilding the file'.format(filename))
+            # Claim the file before moving the old file out of the way.
+            # Otherwise, if another thread is building the same file, we might
+            # move away the file that it just wrote.
             self._new_cache.start_building_file(filename)
+            try:
+                if (os.path.isfile(filename) and
+                        self._backups.back_up_and_remove(filename)):
+                    logger.info(
+                        'Moved {:s} to a temporary directory, in preparation '
+                        'for rebuilding the file'.format(filename))
+            except Exception:
+                self._new_cache.cancel_building_file(filename)
+                raise
         except Exception:
             self._build_dirs.error_building_file(filename)
             raise
